@@ -88,7 +88,8 @@ func Alphabet(n int, extras bool) []seqx.Op {
 		}
 	}
 	if extras {
-		a = append(a, seqx.Op{K: "joinself", A: 0}, seqx.Op{K: "joinempty", A: 0}, seqx.Op{K: "joinforeign", A: 0})
+		a = append(a, seqx.Op{K: "joinself", A: 0}, seqx.Op{K: "joinempty", A: 0}, seqx.Op{K: "joinforeign", A: 0},
+			seqx.Op{K: "joinforeign", A: 0, B: 1}, seqx.Op{K: "joinforeign", A: 0, B: 2}, seqx.Op{K: "joinforeign", A: 0, B: 3})
 	}
 	return a
 }
